@@ -59,6 +59,28 @@ def all_symbols(model) -> set:
     return out
 
 
+def bound_symbol_names(model) -> list:
+    """Names of Symbol atoms that are not free anywhere: summation indices, amplitude base labels."""
+    import sympy as sp  # noqa: PLC0415
+
+    atoms = set()
+
+    def visit(obj):
+        if isinstance(obj, sp.Basic):
+            atoms.update(a for a in obj.atoms(sp.Symbol))
+            for ib in obj.atoms(sp.IndexedBase):
+                atoms.update(ib.label.atoms(sp.Symbol))
+        elif isinstance(obj, abc.Mapping):
+            for k, v in obj.items():
+                visit(k)
+                visit(v)
+
+    for attr in ATTRS:
+        visit(getattr(model, attr))
+    free = {s.name for s in all_symbols(model)}
+    return sorted({a.name for a in atoms} - free)
+
+
 def undefined_symbols(model) -> set:
     """Symbols of the expression tree that are neither parameter nor kinematic variable."""
     defined = set(model.parameter_defaults) | set(model.kinematic_variables)
@@ -81,9 +103,11 @@ def evaluate(model, par_values: dict, kin_values: dict) -> str:
             # symbol that is neither parameter nor kinematic variable (C01's business): any fixed value
             values[s] = kin_value("undefined:" + s.name)
     number = sp.N(expr.xreplace(values).doit(), 30)
-    if number.free_symbols or not number.is_number:
-        return f"non-numeric:{sorted(str(x) for x in number.free_symbols)[:5]}"
+    if number.free_symbols or not number.is_number or number.atoms(sp.Indexed, sp.IndexedBase):
+        return f"non-numeric:{sorted(str(x) for x in number.free_symbols)[:5]}:{str(number)[:60]}"
     re, im = number.as_real_imag()
+    if not (re.is_Float or re.is_Rational) or not (im.is_Float or im.is_Rational):
+        return f"non-numeric::{str(number)[:60]}"
     return f"{sp.N(re, 25)}|{sp.N(im, 25)}"
 
 
@@ -176,7 +200,7 @@ def run_history(roots: list, ops: list, numeric: bool = False) -> dict:  # noqa:
     slots: list[dict] = []
     events: list[dict] = []
     mismatches: list[dict] = []
-    probes = {"alias": 0, "merge": 0, "chain_or_swap": 0, "kinvar_rename": 0, "unknown_name": 0,
+    probes = {"bound_name": 0, "collision": 0, "rename_on_collided": 0, "alias": 0, "merge": 0, "chain_or_swap": 0, "kinvar_rename": 0, "unknown_name": 0,
               "set_by_symbol": 0, "set_by_name": 0, "set_by_index": 0, "rename_of_renamed": 0,
               "param_not_in_expression_renamed": 0}
     fresh_counter = [0]
@@ -246,7 +270,7 @@ def run_history(roots: list, ops: list, numeric: bool = False) -> dict:  # noqa:
             if want_keys != got_keys:
                 flag("attr:parameter_defaults", f"slot {si} ({rx}): parameter keys are not the root's under {cmap}", oi)
             expected = {k: v[0] for k, v in slot["sources"].items()}
-            if actual != expected:
+            if actual != expected and not slot.get("collided"):
                 diff = {k: (actual.get(k), expected.get(k)) for k in set(actual) | set(expected)
                         if actual.get(k) != expected.get(k)}
                 flag("values", f"slot {si} ({rx}): parameter values differ from carried-over/overridden ones: {dict(list(diff.items())[:3])}", oi)
@@ -275,7 +299,7 @@ def run_history(roots: list, ops: list, numeric: bool = False) -> dict:  # noqa:
         want_undefined = {cmap.get(n, n) for n in root_undefined[slot["root"]]}
         if undefined_symbols(model) != want_undefined:
             flag("closure", f"slot {si} ({rx}): undefined symbols {sorted(undefined_symbols(model) ^ want_undefined)[:5]}", oi)
-        if with_numeric:
+        if with_numeric and not slot.get("collided"):
             inverse_kin = {}
             for k in root.kinematic_variables:
                 inverse_kin[cmap.get(k.name, k.name)] = kin_value(k.name)
@@ -311,6 +335,9 @@ def run_history(roots: list, ops: list, numeric: bool = False) -> dict:  # noqa:
             picks = op.get("picks", [0])
             renames: dict[str, str] = {}
             merged_now = False
+            collided_now = False
+            if slot.get("collided"):
+                probes["rename_on_collided"] += 1
 
             def fresh(prefix="zz"):
                 fresh_counter[0] += 1
@@ -346,6 +373,23 @@ def run_history(roots: list, ops: list, numeric: bool = False) -> dict:  # noqa:
             elif mk == "unknown":
                 renames = {"no_such_symbol_xyz": fresh()}
                 probes["unknown_name"] += 1
+            elif mk == "bound":
+                # bookkeeping symbols (summation indices, amplitude labels) are not symbols of the model
+                names = bound_symbol_names(model)
+                if names:
+                    source = names[picks[0] % len(names)]
+                    target = names[picks[-1] % len(names)] if op.get("onto_bound") and len(names) > 1 else fresh()
+                    if target != source:
+                        renames = {source: target}
+                        probes["bound_name"] += 1
+            elif mk == "collide" and len(params) >= 2:
+                # onto the name of an existing symbol with other assumptions: two symbols share a name
+                a = params[picks[0] % len(params)]
+                others = [p for p in params + kinvars if p.assumptions0 != a.assumptions0 and p.name != a.name]
+                if others:
+                    renames = {a.name: others[picks[-1] % len(others)].name}
+                    collided_now = True
+                    probes["collision"] += 1
             elif mk == "empty":
                 renames = {}
             ev["renames"] = renames
@@ -379,13 +423,14 @@ def run_history(roots: list, ops: list, numeric: bool = False) -> dict:  # noqa:
                 for name, values in slot["sources"].items():
                     sources.setdefault(step.get(name, name), []).extend(values)
                 new_slot = {"model": new_model, "root": slot["root"], "map": new_map,
+                            "collided": bool(slot.get("collided")) or collided_now,
                             "merged": slot["merged"] or merged_now, "sources": sources,
                             "depth": slot["depth"] + 1, "rx": slot["rx"], "fallback": None}
                 slots.append(new_slot)
                 check_slot(len(slots) - 1, oi, with_numeric=False)
         elif kind == "set":
             keys = list(model.parameter_defaults)
-            if keys:
+            if keys and not slot.get("collided"):
                 target = keys[op["pick"] % len(keys)]
                 how = op["how"]
                 value = op["value"]
